@@ -243,7 +243,8 @@ class GenReplay:
             dch, fch = node.create_connection_handlers(config, self.Provider("i2p", i2ph), self.Provider("tor", torh))
             node.create_tub(node.create_tub_options(config), dch, fch, certFile=os.path.join(d, "private", "node.pem"))
             calls = self.rec.take()
-            served = {"tcp": "none", "tor": "none", "i2p": "none"}
+            # a new Tub serves tcp hints with foolscap's default TCP handler until the handlers are removed
+            served = {"tcp": "tcp", "tor": "none", "i2p": "none"}
             cleared = False
             for nm, a in calls:
                 if nm == "removeAllConnectionHintHandlers":
@@ -624,6 +625,184 @@ def pid_traces(root, seed, ntraces, nevents):
             traces.append({"consts": {"seed": seed, "t": t}, "events": events})
     return traces
 
+
+# ====================================================================================== access blacklist on a real gateway
+# (control characters in a reason are shown escaped and quoted by quote_output: a presentation choice, not driven)
+REASONS = ["my puppy told me to", "why", "see http://example.org/blocked?case=17 for details", "raison: bloqué",
+           "DMCA  takedown #4711", "x"]
+SEPS = [" ", "   ", "\t", " \t "]
+
+
+def render_line(ln, si):
+    if ln["k"] == "blank":
+        return ""
+    if ln["k"] == "comment":
+        return "#" + ln["txt"]
+    return si[ln["o"]] + ln["sep"] + ln["why"]
+
+
+def blacklist_traces(seed, ntraces, nevents):
+    import html
+    import re
+    from webgrid import WebGrid, q
+    from grid import Hang
+    from allmydata.util import base32
+    from allmydata.blacklist import ProhibitedNode, FileProhibited
+    from allmydata.interfaces import IDirectoryNode
+    rng = random.Random(seed * 15485863 + 3)
+    traces = []
+    BODY = {"o2": b"contents of f: a CHK file has more than 55 bytes, which this sentence has. " * 2,
+            "o5": b"contents of g: another immutable file, also longer than the LIT limit of 55 bytes",
+            "o3": b"mutable m", "o7": b"contents of h: long enough to be a CHK file if it is immutable, else SDMF."}
+    for t in range(ntraces):
+        w = WebGrid(num_servers=2, k=1, n=2, happy=1, max_segment_size=32, seed=seed * 1000 + t)
+        try:
+            c = w.client
+            caps, types = {}, {}
+
+            def ok(r, what):
+                if r.code not in (200, 201):
+                    raise RuntimeError("building the tree: %s -> %d %r" % (what, r.code, r.body[:200]))
+                return r.body.decode("ascii").strip()
+            hmut = rng.random() < 0.5
+            caps["o1"] = ok(w.request("POST", "/uri?t=mkdir"), "mkdir")
+            caps["o2"] = ok(w.request("PUT", "/uri/%s/f" % q(caps["o1"]), body=BODY["o2"]), "f")
+            caps["o3"] = ok(w.request("PUT", "/uri/%s/m?format=sdmf" % q(caps["o1"]), body=BODY["o3"]), "m")
+            caps["o4"] = ok(w.request("POST", "/uri/%s/sub?t=mkdir" % q(caps["o1"])), "sub")
+            caps["o5"] = ok(w.request("PUT", "/uri/%s/sub/g" % q(caps["o1"]), body=BODY["o5"]), "g")
+            caps["o6"] = ok(w.request("POST", "/uri/%s/sub/deep?t=mkdir" % q(caps["o1"])), "deep")
+            caps["o7"] = ok(w.request("PUT", "/uri/%s/sub/deep/h%s" % (q(caps["o1"]), "?format=sdmf" if hmut else ""), body=BODY["o7"]), "h")
+            caps["o8"] = ok(w.request("POST", "/uri/%s/imm?t=mkdir-immutable" % q(caps["o1"]),
+                                      body=json.dumps({"x": ["filenode", {"ro_uri": caps["o5"]}]}).encode()), "imm")
+            types = {"o1": "dir", "o2": "file", "o3": "mfile", "o4": "dir", "o5": "file", "o6": "dir",
+                     "o7": "mfile" if hmut else "file", "o8": "idir"}
+            link = lambda o: {"to": o, "lvl": "w"}
+            kids = {"o1": {"f": link("o2"), "m": link("o3"), "sub": link("o4"), "imm": link("o8")},
+                    "o4": {"g": link("o5"), "deep": link("o6")}, "o6": {"h": link("o7")}, "o8": {"x": link("o5")},
+                    "o2": {}, "o3": {}, "o5": {}, "o7": {}}
+            si = {o: base32.b2a(c.create_node_from_uri(cap.encode("ascii")).get_storage_index()).decode("ascii") for o, cap in caps.items()}
+            fn = c.blacklist.blacklist_fn
+            targets = [("o1", []), ("o1", ["f"]), ("o1", ["m"]), ("o1", ["sub"]), ("o1", ["sub", "g"]), ("o1", ["sub", "deep"]),
+                       ("o1", ["sub", "deep", "h"]), ("o1", ["imm"]), ("o1", ["imm", "x"]), ("o1", ["nope"]), ("o1", ["sub", "nope"]),
+                       ("o4", []), ("o4", ["g"]), ("o4", ["deep", "h"]), ("o6", []), ("o6", ["h"]), ("o8", []), ("o8", ["x"]),
+                       ("o2", []), ("o3", []), ("o5", []), ("o7", [])]
+            lines, mt, events = [], 0, []
+
+            def resolve(o, path):
+                for nm in path:
+                    o = kids.get(o, {}).get(nm, {}).get("to")
+                    if o is None:
+                        return None
+                return o
+            # the first traces start with a scripted prefix, so that every run meets the documentation's own example, a
+            # listing with a prohibited immutable child and a listing with a prohibited mutable child
+            SCRIPTS = {0: [("w", [("o2", "my puppy told me to", " ")]), ("g", "o2", [], ""), ("g", "o1", [], "json"), ("g", "o1", ["f"], "")],
+                       1: [("w", [("o3", "why", " ")]), ("g", "o1", ["m"], ""), ("g", "o1", [], "json")],
+                       2: [("w", [("o4", "raison: bloqué", "\t")]), ("g", "o1", ["sub", "g"], ""), ("g", "o4", [], "json"), ("g", "o5", [], ""), ("g", "o1", [], "json")]}
+            script = list(SCRIPTS.get(t, []))
+            for i in range(len(script) if t in (1, 2) else nevents):       # (1, 2 end on the listing that is a known finding)
+                r = rng.random()
+                forced = script.pop(0) if script else None
+                if forced and forced[0] == "w":
+                    r = 0.0
+                elif forced:
+                    r = 0.5
+                if i == 0 or r < 0.30:
+                    # the operator edits the file
+                    listed = {ln["o"] for ln in lines if ln["k"] == "entry"}
+                    free = [o for o in caps if o not in listed]
+                    ed = rng.random()
+                    new = [dict(x) for x in lines]
+                    if forced:
+                        new = [{"k": "entry", "o": o, "why": why, "sep": sep} for o, why, sep in forced[1]]
+                    elif (ed < 0.5 or not new) and free:
+                        new.insert(rng.randrange(len(new) + 1), {"k": "entry", "o": rng.choice(free), "why": rng.choice(REASONS), "sep": rng.choice(SEPS)})
+                    elif ed < 0.62:
+                        new.insert(rng.randrange(len(new) + 1), {"k": "comment", "txt": rng.choice(["", " a remark", " " + si["o2"] + " not this one", "#"])})
+                    elif ed < 0.72:
+                        new.insert(rng.randrange(len(new) + 1), {"k": "blank"})
+                    elif ed < 0.86 and listed:
+                        j = rng.choice([k for k, ln in enumerate(new) if ln["k"] == "entry"])
+                        new[j] = {"k": "comment", "txt": render_line(new[j], si)}           # commented out
+                    elif new:
+                        del new[rng.randrange(len(new))]
+                    lines = new
+                    d = rng.random()
+                    mt = mt + 1 if (d < 0.75 or mt == 0 or forced) else mt if d < 0.9 else max(1, mt - 1)
+                    text = "".join(render_line(ln, si) + "\n" for ln in lines)
+                    if text.endswith("\n") and rng.random() < 0.2:
+                        text = text[:-1]                                  # no newline at the end of the file
+                    with open(fn, "wb") as f:
+                        f.write(text.encode("utf-8"))
+                    os.utime(fn, (1000000000 + mt, 1000000000 + mt))
+                    events.append({"ev": "write", "lines": lines, "mt": mt})
+                elif r < 0.34:
+                    if os.path.exists(fn):
+                        os.remove(fn)
+                    lines = []
+                    events.append({"ev": "remove"})
+                elif r < 0.86:
+                    o, path = rng.choice(targets)
+                    tgt = resolve(o, path)
+                    tq = "json" if tgt is not None and types[tgt] in ("dir", "idir") and rng.random() < 0.6 else ""
+                    if forced:
+                        o, path, tq = forced[1], forced[2], forced[3]
+                        tgt = resolve(o, path)
+                    url = "/uri/" + q(caps[o]) + "".join("/" + q(nm) for nm in path) + ("?t=json" if tq else "")
+                    e = {"ev": "get", "o": o, "path": path, "t": tq, "code": 0, "msg": "", "body_ok": False, "names": [], "kind": ""}
+                    try:
+                        resp = w.request("GET", url)
+                        e["code"] = resp.code
+                        ctype = resp.header("content-type") or ""
+                        body = resp.body
+                        if resp.code == 403:
+                            txt = body.decode("utf-8", "replace")
+                            if "html" in ctype:
+                                m = re.search(r"<p>(.*?)</p>", txt, re.S)
+                                txt = html.unescape(m.group(1)) if m else txt
+                            e["msg"] = txt
+                        elif resp.code == 200 and tq == "json":
+                            try:
+                                j = json.loads(body)
+                                e["kind"] = j[0]
+                                e["names"] = sorted(j[1].get("children", {})) if j[0] == "dirnode" else []
+                            except Exception:
+                                e["kind"] = "not-json"
+                        elif resp.code == 200 and tgt in BODY:
+                            e["body_ok"] = body == BODY[tgt]
+                        if resp.error:
+                            e["code"], e["note"] = 0, "body transfer failed: " + resp.error
+                    except Hang as x:
+                        e["note"] = "no response: " + str(x)[:120]
+                    except Exception as x:
+                        e["code"], e["note"] = -1, "request failed: %s %s" % (errname(x), str(x)[:160])
+                    events.append(e)
+                else:
+                    o = rng.choice(sorted(caps))
+                    e = {"ev": "api", "o": o, "proh": False, "isdir": False, "read": "", "msg": ""}
+                    try:
+                        n = c.create_node_from_uri(caps[o].encode("ascii"))
+                        e["proh"] = isinstance(n, ProhibitedNode)
+                        e["isdir"] = bool(IDirectoryNode.providedBy(n))
+                        try:
+                            if e["isdir"]:
+                                d = n.list()
+                            else:
+                                d = n.download_best_version() if n.is_mutable() else n.get_best_readable_version()
+                            w.g.run(d)
+                            e["read"] = "ok"
+                        except FileProhibited as x:
+                            e["read"], e["msg"] = "FileProhibited", str(x)
+                        except Exception as x:
+                            e["read"], e["msg"] = errname(x), str(x)[:160]
+                    except Exception as x:
+                        e["read"], e["msg"] = "create_node_from_uri:" + errname(x), str(x)[:160]
+                    events.append(e)
+            traces.append({"consts": {"G": {"type": types, "kids": kids}, "seed": seed, "t": t, "hmut": hmut}, "events": events})
+        finally:
+            w.close()
+    return traces
+
 # ====================================================================================== main
 def main():
     ap = argparse.ArgumentParser()
@@ -638,10 +817,17 @@ def main():
     plan = json.loads(a.plan)
     root = tempfile.mkdtemp(prefix="nodemisc_")
     try:
-        if a.mode == "gen":
+        if a.mode == "all":          # one process for everything: the imports are the expensive part
+            out = {"results": GenReplay(root).run(inp["cases"]),
+                   "priv": priv_traces(root, a.seed, plan["priv"]["traces"], plan["priv"]["events"]),
+                   "pid": pid_traces(root, a.seed, plan["pid"]["traces"], plan["pid"]["events"]),
+                   "blacklist": blacklist_traces(a.seed, plan["blacklist"]["traces"], plan["blacklist"]["events"])}
+        elif a.mode == "gen":
             out = {"results": GenReplay(root).run(inp["cases"])}
         elif a.mode == "priv":
             out = {"traces": priv_traces(root, a.seed, plan.get("traces", 40), plan.get("events", 14))}
+        elif a.mode == "blacklist":
+            out = {"traces": blacklist_traces(a.seed, plan.get("traces", 12), plan.get("events", 24))}
         elif a.mode == "pid":
             out = {"traces": pid_traces(root, a.seed, plan.get("traces", 60), plan.get("events", 14))}
         else:
